@@ -458,17 +458,7 @@ def main():
             except BaseException:
                 pass
 
-    import logging
-    logging.disable(logging.CRITICAL)
-    try:
-        asyncio.run(go())
-    except BaseException as e:
-        # an exception that escaped the event loop itself (asyncio re-raises KeyboardInterrupt / SystemExit
-        # raised inside a task): the application is gone.  from_impl: it came through nextline's code.
-        import traceback
-        tb = traceback.format_exc()
-        w.log(k='loop_crashed', err=type(e).__name__, from_impl='nextline' in tb.replace('/verif/', ''), tb=tb[-1500:], state='?', alive=0)
-    finally:
+    def finish():
         sys.stdout.write('@@OBS ' + json.dumps(w.obs, default=repr) + '\n')
         sys.stdout.flush()
         for p in mp.active_children():
@@ -479,6 +469,25 @@ def main():
         import shutil
         shutil.rmtree(w.tmp, ignore_errors=True)
         os._exit(0)
+
+    async def go_and_exit():
+        await go()
+        # leave from inside the loop: asyncio.run() would wait for executor threads that can be blocked for
+        # ever in queue.get() of a child that died abruptly (a recorded finding), and the log would be lost
+        finish()
+
+    import logging
+    logging.disable(logging.CRITICAL)
+    try:
+        asyncio.run(go_and_exit())
+    except BaseException as e:
+        # an exception that escaped the event loop itself (asyncio re-raises KeyboardInterrupt / SystemExit
+        # raised inside a task): the application is gone.  from_impl: it came through nextline's code.
+        import traceback
+        tb = traceback.format_exc()
+        w.log(k='loop_crashed', err=type(e).__name__, from_impl='nextline' in tb.replace('/verif/', ''), tb=tb[-1500:], state='?', alive=0)
+    finally:
+        finish()
 
 
 if __name__ == '__main__':
